@@ -63,3 +63,27 @@ Proof. exact istep_no_target. Qed.
 (** non-vacuity: two maps "a" (bytes) and "b" (u64) in one directory, a clone of a's handle *)
 Example C11_nonvacuous_clone_put_seen := Examples.clone_put_seen.
 Example C11_nonvacuous_other_map_unchanged := Examples.other_map_unchanged.
+
+(** THE FILES OF A MAP (Names.v).  The world-level model identifies a map by (directory, name); on
+    disk the map [name] is the three files [name.htx], [name.key], [name.val] of the directory.
+    That map from (name, kind of file) to file names is injective, whatever bytes the names
+    contain - dots, the extensions themselves, names that are prefixes of each other: different
+    maps never share a file, and the three files of one map are three files.  The correspondence
+    runner prints every directory listing through the extracted [file_name]. *)
+From Aby Require Import Names.
+
+Theorem C11_file_names_never_clash : forall n1 k1 n2 k2,
+  file_name n1 k1 = file_name n2 k2 -> n1 = n2 /\ k1 = k2.
+Proof. exact file_name_inj. Qed.
+
+Theorem C11_files_of_different_maps_are_disjoint : forall n1 n2 k1 k2,
+  n1 <> n2 -> file_name n1 k1 <> file_name n2 k2.
+Proof. exact files_of_maps_disjoint. Qed.
+
+(** replacing "everything after the last dot" instead (PathBuf::set_extension, the seeded changes
+    C11e / C12e) is not injective: "users.v1" and "users.v2" would share one table file *)
+Example C11_set_extension_would_clash :
+  let a := [117; 115; 101; 114; 115; 46; 118; 49] in
+  let b := [117; 115; 101; 114; 115; 46; 118; 50] in
+  a <> b /\ set_extension a KHtx = set_extension b KHtx /\ file_name a KHtx <> file_name b KHtx.
+Proof. exact set_extension_clashes. Qed.
